@@ -9,4 +9,12 @@ cNoMax == -1
 CxPOk == POk \/ ~PrintT(<<"CX", ToJson(hist)>>)
 CxHeldBound == HeldBound \/ ~PrintT(<<"CX", ToJson(hist)>>)
 CxExact == Exact \/ ~PrintT(<<"CX", ToJson(hist)>>)
+
+\* witnesses (thorough tier): each is *expected to be violated* - the situation it denies is reached by the model
+LastStep == IF Len(hist) > 0 THEN hist[Len(hist)] ELSE [ev |-> "none"]
+ViewL == <<View, last, LastStep>>      \* the witnesses look at the last step, which View hides
+WitReplay == ~(last.ev = "req" /\ last.out.kind = "replay")
+WitLaggingNoop == ~(last.ev = "req" /\ last.out.kind = "noop" /\ store[last.k] # NoEntry)      \* expired, clean-up lagging
+WitSizeReject == ~(LastStep.ev = "wcheck" /\ wr[LastStep.w].pc = "idle")                       \* refused by the early size test
+WitStaleSleeper == ~(LastStep.ev = "fire1" /\ LastStep.stale)                                  \* an old sleeper deletes a newer entry
 =============================================================================
